@@ -218,6 +218,15 @@ def httpGetBody (r : HttpReq) : GoM (BodyV × Option String × HttpReq) :=
   | none => throw (.panic "invalid memory address or nil pointer dereference")
   | some f => pure ((f r.gbCalls).1, (f r.gbCalls).2, { r with gbCalls := r.gbCalls + 1 })
 
+/-- an `http.ResponseWriter` of whatever dynamic type: an identity the translated code only hands on -/
+abbrev HttpRW := Nat
+
+/-- `h[key]` on an `http.Header`: the values stored under exactly that key (no canonicalisation: a map index) -/
+def headerGet (h : List (Bytes × List Bytes)) (k : Bytes) : List Bytes :=
+  match h.find? (fun e => e.1 == k) with
+  | some e => e.2
+  | none => []
+
 /-- `http.Header.Del` / `Set` -/
 def headerDel (h : List (Bytes × List Bytes)) (k : Bytes) : List (Bytes × List Bytes) := h.filter fun e => e.1 != canonKey k
 def headerSet (h : List (Bytes × List Bytes)) (k v : Bytes) : List (Bytes × List Bytes) := headerDel h k ++ [(canonKey k, [v])]
